@@ -21,9 +21,39 @@ FT = POOL + "finality_tracker::FinalityTracker"
 A_SLOT = "alpenglow::types::slot::Slot::"
 
 
+def ob_add_to_ready_records(run, oid):
+    """ParentReadyState::add_to_ready records the parent on every path - whether or not a waiter is there to be told"""
+    prog = run.program("lib")
+    o = run.ob(oid, "ParentReadyState::add_to_ready records the given parent on every path (is_ready = Ready([id]) or a push of id), independent of the waiter",
+               "the pair is announced by the caller in any case: if the state does not record it, the query does not list it, later waiters are not woken and the "
+               "parent is not carried into the next window when this one is skipped", floor=2)
+    b = prog.body(PRS + "::add_to_ready")
+    if b is None:
+        o.missing("ParentReadyState::add_to_ready")
+        return o
+    rec = []
+    for (bb, ow, name, rv, sp, dst) in b.field_writes():
+        if name == "is_ready" and ow == PRS:
+            t = b.rvalue_term(rv) if isinstance(rv, dict) else None
+            rec.append((bb, sp, "assign"))
+    for c in b.calls():
+        if mir.strip_generics(c.name).rsplit("::", 1)[-1] in ("push", "insert", "extend") and len(c.args) >= 2 and K.mentions(b.operand_term(c.args[-1]), lambda y: y[0] == "param" and y[1] == 2):
+            rec.append((c.bb, c.span, "push"))
+    o.check(len(rec) >= 2, "add_to_ready|record-sites", "one recording step per state (first parent: Ready([id]); further parents: push)", b.span, {"sites": len(rec)})
+    o.check(b.always_followed_by(0, [r[0] for r in rec]), "add_to_ready|always-records", "every path to a return passes through a recording step", b.span)
+    for (bb, rv, sp, dst) in b.aggregates():
+        if rv.get("ak") == "adt" and rv.get("variant") == "Ready":
+            t = b.operand_term(rv["ops"][0]) if rv["ops"] else None
+            pv = b.provenance(t) if t is not None else {"params": set()}
+            o.check(t is not None and (b.local_name(2) in pv["params"] or K.mentions(t, lambda y: isinstance(y, tuple) and y and y[0] == "param" and y[1] == 2)), "add_to_ready|Ready|contains-id",
+                    "the Ready list is created with the given parent", sp, {"params": sorted(pv["params"])})
+    return o
+
+
 def check(run, prefix="O7"):
     from . import slots as _SL
     _SL.ob_slot_arithmetic(run, prefix + ".15")
+    ob_add_to_ready_records(run, prefix + ".17")
     from . import detectors as _DL
     _DL.ob_loop_exits(run, "O7.14", ['consensus::pool'], 'every newly ready (slot, parent) pair must be recorded and announced: a loop that stops early drops the remaining pairs')
     # "skipped as a consequence of a finalization" / "finalized": the tracker learns these only from the FinalizationEvent
@@ -178,6 +208,22 @@ def check(run, prefix="O7"):
             wrote = any(bb in blocks for (bb, _sp, _rv) in K.writes_of_field(b, "ParentReadyState", fld)) or any(bb in blocks for (bb, _sp) in K.mutborrows_of_field(b, "ParentReadyState", fld) if any(c.bb in blocks and c.name.endswith("::push") for c in b.calls()))
             if ret is not None and ret[0] == "const":
                 outs.add((bool(ret[2]), bool(wrote)))
+            elif ret is not None:
+                # `let already = xs.contains(..); if !already { push } !already`: the returned term is decided by a condition of this path
+                neg = False
+                r2 = K.peel(ret)
+                while isinstance(r2, tuple) and r2 and r2[0] == "un" and r2[1] == "Not":
+                    neg = not neg
+                    r2 = K.peel(r2[2])
+                strip = lambda x: (x[0], x[1], x[2]) if isinstance(x, tuple) and x and x[0] == "call" else x
+                val = None
+                for a in atoms:
+                    if a[0] == "bool" and strip(K.peel(a[1][0])) == strip(r2):
+                        val = a[2] != neg
+                if val is None:
+                    outs.add(("?", bool(wrote)))
+                else:
+                    outs.add((bool(val), bool(wrote)))
         o.check(outs == {(True, True), (False, False)}, "ParentReadyState::%s|returns-newly" % fn, "%s returns true exactly on the path that records the mark" % fn, b.span, {"table(ret,wrote)": sorted(outs)})
 
     # ------------------------------------------------------------------ O7.4 is_ready writers
